@@ -14,17 +14,18 @@ Variable midcheck : bool.
 Variable postcopy : bool.
 Variable recheck : bool.
 Variable freshrule : bool.
+Variable reachrule : bool.
 
 Local Notation state := (state data).
 Local Notation inv := (inv data zero lock).
-Local Notation step := (step data lock midcheck postcopy recheck freshrule).
+Local Notation step := (step data lock midcheck postcopy recheck freshrule reachrule).
 Local Notation restoreL := (restore data zero lock).
 
 Record sinv (s : state) : Prop := mkSinv {
   n_off : lastoff data s = 0 \/ lastoff data s = cfo data s;
   n_pos : forall c, cur data s = AtLive c -> 0 < c;
   n_pend : forall p we sc sg, snap data s = Some (p, we, sc, sg) ->
-           p <= length (l0 data s) /\ sg <= gen data s /\
+           p <= length (l0 data s) /\ sg <= gen data s /\ 0 < we /\
            (sg = gen data s ->
             0 < sc /\ sc <= length (txs data s) /\ we = flen data (firstn sc (txs data s)) /\
             img_eq data (restoreL (firstn p (l0 data s)))
@@ -79,15 +80,15 @@ Proof.
     + destruct (c' =? length (txs data s)); discriminate.
     + destruct (length (txs data s) =? 0); discriminate.
     + discriminate.
-  - intros p we sc sg Es. destruct (C p we sc sg Es) as [C1 [C2 _]].
-    split; [exact C1|]. split; [lia|]. intros E. exfalso. lia.
+  - intros p we sc sg Es. destruct (C p we sc sg Es) as [C1 [C2 [C0 _]]].
+    split; [exact C1|]. split; [lia|]. split; [exact C0|]. intros E. exfalso. lia.
 Qed.
 
 Lemma sinv_append s t : inv s -> sinv s -> sinv (append_st data s t).
 Proof.
   intros H [A B C D]. constructor; cbn; try assumption.
-  intros p we sc sg Es. destruct (C p we sc sg Es) as [C1 [C2 C3]].
-  split; [exact C1|]. split; [exact C2|]. intros E. destruct (C3 E) as [X1 [X2 [X3 X4]]].
+  intros p we sc sg Es. destruct (C p we sc sg Es) as [C1 [C2 [C0 C3]]].
+  split; [exact C1|]. split; [exact C2|]. split; [exact C0|]. intros E. destruct (C3 E) as [X1 [X2 [X3 X4]]].
   rewrite firstn_app_le by exact X2. rewrite app_length. split; [exact X1|]. split; [lia|]. split; assumption.
 Qed.
 
@@ -98,8 +99,8 @@ Proof.
     intros E. inversion E; subst.
     pose proof (sinv_reset s false Hn) as [A B C D].
     constructor; cbn in *; try assumption.
-    intros p we sc sg Es. destruct (C p we sc sg Es) as [C1 [C2 C3]].
-    split; [exact C1|]. split; [exact C2|]. intros E2. exfalso. lia.
+    intros p we sc sg Es. destruct (C p we sc sg Es) as [C1 [C2 [C0 C3]]].
+    split; [exact C1|]. split; [exact C2|]. split; [exact C0|]. intros E2. exfalso. lia.
   - intros E. inversion E; subst. apply sinv_append; assumption.
 Qed.
 
@@ -113,14 +114,14 @@ Proof.
   intros H [A B C D] Hc. constructor; unfold lastoff, snap in *; cbn.
   - right. reflexivity.
   - exact Hc.
-  - intros p we sc sg Es. destruct (C p we sc sg Es) as [C1 [C2 C3]].
-    rewrite app_length. split; [lia|]. split; [exact C2|]. intros E.
+  - intros p we sc sg Es. destruct (C p we sc sg Es) as [C1 [C2 [C0 C3]]].
+    rewrite app_length. split; [lia|]. split; [exact C2|]. split; [exact C0|]. intros E.
     rewrite firstn_snoc_le by exact C1. apply C3. exact E.
   - intros p im Hin. destruct (D p im Hin) as [D1 D2]. rewrite app_length. split; [lia|].
     rewrite firstn_snoc_le by exact D1. exact D2.
 Qed.
 
-Lemma sinv_do_sync s k s' : inv s -> sinv s -> do_sync data lock freshrule s k = Some s' -> sinv s'.
+Lemma sinv_do_sync s k s' : inv s -> sinv s -> do_sync data lock freshrule reachrule s k = Some s' -> sinv s'.
 Proof.
   intros H Hn. unfold do_sync. destruct (negb (opened data s)); [discriminate|].
   destruct (phys data s) as [|p0 pr] eqn:Ep; [discriminate|].
@@ -135,7 +136,7 @@ Proof.
     - intros E. inversion E; subst. destruct cl; [|exact Hn].
       eapply sinv_score; [|exact Hn]. reflexivity.
     - apply Nat.eqb_neq in Ek. intros E. inversion E; subst. apply sinv_write; auto. }
-  destruct (verify data freshrule s).
+  destruct (verify data freshrule reachrule s).
   - intros E. inversion E; subst. apply sinv_write; auto.
     intros c' Ec. inversion Ec; subst. destruct (txs data s); [contradiction|cbn; lia].
   - destruct (idx data (txs data s) (cfo data s)) as [c|]; [|discriminate]. apply G.
@@ -152,7 +153,7 @@ Lemma snap_read_correct s p we sc sg c :
          (view data (dbfile data s, fsize data s) (concat (firstn c (txs data s)))).
 Proof.
   intros H [A B C D] Es Eg Hb Ei.
-  destruct (C p we sc sg Es) as [C1 [C2 C3]]. destruct (C3 Eg) as [X1 [X2 [X3 X4]]].
+  destruct (C p we sc sg Es) as [C1 [C2 [C0 C3]]]. destruct (C3 Eg) as [X1 [X2 [X3 X4]]].
   assert (Hnonempty : Forall (fun t => t <> []) (txs data s))
     by (eapply txs_ok_nonempty; apply (i_txs _ _ _ _ H)).
   assert (Ec : c = sc).
@@ -180,14 +181,14 @@ Proof.
     inversion E; subst. apply Same. reflexivity.
   - destruct (pc data s); try discriminate.
     + eapply sinv_do_sync; eauto.
-    + destruct (do_sync data lock freshrule s k) eqn:Ed; [|discriminate]. inversion E; subst.
+    + destruct (do_sync data lock freshrule reachrule s k) eqn:Ed; [|discriminate]. inversion E; subst.
       eapply sinv_score; [|eapply sinv_do_sync; eauto]. reflexivity.
-    + destruct (do_sync data lock freshrule s k) eqn:Ed; [|discriminate]. inversion E; subst.
+    + destruct (do_sync data lock freshrule reachrule s k) eqn:Ed; [|discriminate]. inversion E; subst.
       eapply sinv_score; [|eapply sinv_do_sync; eauto]. reflexivity.
     + destruct (needs_post postcopy m rb); [|discriminate].
-      destruct (do_sync data lock freshrule s k) eqn:Ed; [|discriminate]. inversion E; subst.
+      destruct (do_sync data lock freshrule reachrule s k) eqn:Ed; [|discriminate]. inversion E; subst.
       eapply sinv_score; [|eapply sinv_do_sync; eauto]. reflexivity.
-    + destruct (do_sync data lock freshrule s k) eqn:Ed; [|discriminate]. inversion E; subst.
+    + destruct (do_sync data lock freshrule reachrule s k) eqn:Ed; [|discriminate]. inversion E; subst.
       eapply sinv_score; [|eapply sinv_do_sync; eauto]. reflexivity.
   - destruct (pc data s); try discriminate. destruct (l0 data s); [discriminate|].
     destruct ((cgen data s =? gen data s) && (cfo data s =? flen data (txs data s))); [|discriminate].
@@ -246,26 +247,46 @@ Proof.
     destruct Hn as [A B C D]. pose proof (B c Ec) as Hpos.
     constructor; unfold lastoff, snap in *; cbn; try assumption.
     intros p we sc sg Es. inversion Es; subst. clear Es. rewrite El.
-    split; [reflexivity|]. split; [lia|]. intros _.
-    split; [exact Hpos|]. split; [exact Hle|]. split.
-    + unfold snap_wal_end.
-        assert (Hphys : phys data s <> []).
-        { intros Ep. pose proof (i_phys _ _ _ _ H) as Hp. rewrite Ep in Hp. cbn in Hp.
-          assert (Ht : txs data s = []).
-          { apply flen_zero_nil; [eapply txs_ok_nonempty; apply (i_txs _ _ _ _ H)|lia]. }
-          rewrite Ht in Hle. cbn in Hle. lia. }
-        destruct (phys data s); [contradiction|].
-        rewrite Hg, Nat.eqb_refl. cbn [negb]. rewrite andb_false_r.
-        unfold lastoff. destruct A as [A|A]; rewrite A; [change (0 <? 0) with false; exact Hcfo|].
-        destruct (0 <? cfo data s); exact Hcfo.
-    + change (S (length xs)) with (length (x :: xs)). rewrite firstn_all. rewrite <- El. exact Himg.
+    assert (Hwe : snap_wal_end data s guard = flen data (firstn sc (txs data s))).
+    { unfold snap_wal_end.
+      assert (Hphys : phys data s <> []).
+      { intros Ep. pose proof (i_phys _ _ _ _ H) as Hp. rewrite Ep in Hp. cbn in Hp.
+        assert (Ht : txs data s = []).
+        { apply flen_zero_nil; [eapply txs_ok_nonempty; apply (i_txs _ _ _ _ H)|lia]. }
+        rewrite Ht in Hle. cbn in Hle. lia. }
+      destruct (phys data s); [contradiction|].
+      rewrite Hg, Nat.eqb_refl. cbn [negb]. rewrite andb_false_r.
+      unfold lastoff. destruct A as [A|A]; rewrite A; [change (0 <? 0) with false; exact Hcfo|].
+      destruct (0 <? cfo data s); exact Hcfo. }
+    assert (Hwepos : 0 < flen data (firstn sc (txs data s))).
+    { destruct (txs data s) as [|t0 r0] eqn:Et; [cbn in Hle; lia|]. destruct sc as [|sc']; [lia|].
+      cbn [firstn]. unfold flen. cbn [concat]. rewrite app_length.
+      assert (t0 <> []).
+      { pose proof (txs_ok_nonempty data lock _ _ (i_txs _ _ _ _ H)) as Hne. rewrite Et in Hne.
+        inversion Hne; assumption. }
+      destruct t0; [contradiction|cbn; lia]. }
+    split; [reflexivity|]. split; [lia|]. split; [rewrite Hwe; exact Hwepos|]. intros _.
+    split; [exact Hpos|]. split; [exact Hle|]. split; [exact Hwe|].
+    change (S (length xs)) with (length (x :: xs)). rewrite firstn_all. rewrite <- El. exact Himg.
   - (* LsSnapRead *)
     destruct (snap data s) as [[[[p we] sc] sg]|] eqn:Es; [|discriminate].
     destruct (phys data s); [discriminate|]. destruct (opened data s); [|discriminate].
+    cbn in Hok. unfold snap in Hok, Es. rewrite Es in Hok.
+    apply andb_prop in Hok. destruct Hok as [Hg Hb]. apply Nat.leb_le in Hb.
+    destruct (chk && (0 <? we) && negb (sg =? gen data s)) eqn:Echk.
+    { (* the guards of 482a715 / a637c7e fire: no snapshot is produced *)
+      inversion E; subst. clear E. destruct Hn as [A B C D].
+      constructor; unfold lastoff, snap; cbn; try assumption.
+      intros p' we' sc' sg' X. discriminate. }
     destruct (snap_idx data (txs data s) we) as [c|] eqn:Ei; [|discriminate].
-    inversion E; subst. clear E. cbn in Hok. unfold snap in Hok, Es. rewrite Es in Hok.
-    apply andb_prop in Hok. destruct Hok as [Hg Hb]. apply Nat.eqb_eq in Hg. apply Nat.leb_le in Hb.
-    pose proof (snap_read_correct s p we sc sg c H Hn Es Hg Hb Ei) as Hc.
+    inversion E; subst. clear E.
+    assert (Hgen : sg = gen data s).
+    { destruct (sg =? gen data s) eqn:Eg; [apply Nat.eqb_eq; exact Eg|exfalso].
+      rewrite orb_false_r in Hg. subst chk. cbn [andb negb] in Echk. rewrite andb_true_r in Echk.
+      apply Nat.ltb_ge in Echk. assert (we = 0) by lia. subst we.
+      (* a bound of zero frames: the position was not in the live generation *)
+      destruct Hn as [A B C D]. destruct (C p 0 sc sg Es) as [_ [_ [C0 _]]]. lia. }
+    pose proof (snap_read_correct s p we sc sg c H Hn Es Hgen Hb Ei) as Hc.
     destruct Hn as [A B C D].
     constructor; unfold lastoff, snap; cbn; try assumption.
     + intros p' we' sc' sg' X. discriminate.
